@@ -996,6 +996,12 @@ func loadViewFromFile(ctx context.Context, flags *option.Flags, fp io.Reader, fi
 }
 
 func loadViewFromFixedLengthTextFile(ctx context.Context, fp *file.Reader, fileInfo *FileInfo, withoutNull bool, expr parser.QueryExpression) (*View, error) {
+	if fileInfo.SingleLine && fileInfo.DelimiterPositions != nil && len(fileInfo.DelimiterPositions) < 1 {
+		// A record without fields takes nothing from a line that has no line breaks to end the records:
+		// the reader would return such records for ever.
+		return nil, NewDataParsingError(expr, fileInfo.Path, "delimiter positions must not be empty in single-line mode")
+	}
+
 	fileHead, err := fp.HeadBytes()
 	if err != nil {
 		return nil, NewIOError(expr, err.Error())
